@@ -435,6 +435,69 @@ def processDatagram (accepts : List Char → List Bool) (data : Bytes) : ReqResu
     else .ignored
   | _ => .ignored
 
+/-! ### handlers that raise while being asked (`prepare_context` / `can_handle`)
+
+`TftpServer._run` catches whatever escapes the processing of a datagram, logs it ("Request processing
+failed.") and receives the next datagram: nothing is sent to the client, no transfer is started, the
+request port keeps serving. -/
+
+/-- what asking one handler about a file name leads to -/
+inductive Ans where
+  | yes | no
+  /-- `prepare_context` raised -/
+  | raisePrepare
+  /-- `can_handle` raised -/
+  | raiseCanHandle
+deriving Repr, DecidableEq
+
+def Ans.toBool : Ans → Bool
+  | .yes => true
+  | _ => false
+
+def Ans.raises : Ans → Bool
+  | .raisePrepare => true
+  | .raiseCanHandle => true
+  | _ => false
+
+/-- index of the handler that raises before any handler has accepted -/
+def failingHandler : Nat → List Ans → Option Nat
+  | _, [] => none
+  | _, .yes :: _ => none
+  | i, .no :: rest => failingHandler (i + 1) rest
+  | i, .raisePrepare :: _ => some i
+  | i, .raiseCanHandle :: _ => some i
+
+/-- the handler methods invoked when handlers may raise -/
+def dispatchCallsF : Nat → List Ans → List Call
+  | _, [] => []
+  | i, .yes :: _ => [.prepare i, .canHandle i, .handle i]
+  | i, .no :: rest => .prepare i :: .canHandle i :: dispatchCallsF (i + 1) rest
+  | i, .raisePrepare :: _ => [.prepare i]
+  | i, .raiseCanHandle :: _ => [.prepare i, .canHandle i]
+
+/-- the file name the handlers are asked about, if the datagram gets that far -/
+def reachesHandlers (data : Bytes) : Option (List Char) :=
+  match data.take maxReq with
+  | hi :: lo :: body =>
+    if unbe16 hi lo = opRRQ then
+      match decodeFields body with
+      | none => none
+      | some rrq => if rrq.mode = .mail then none else some rrq.filename
+    else none
+  | _ => none
+
+inductive ReqResultF where
+  | ok (r : ReqResult)
+  /-- handler `h` raised while being asked: logged, no reply, no transfer -/
+  | handlerFailed (h : Nat)
+deriving Repr, DecidableEq
+
+/-- `TftpServer._process_request` with handlers that may raise while being asked -/
+def processDatagramF (answers : List Char → List Ans) (data : Bytes) : ReqResultF :=
+  match (reachesHandlers data).bind (fun f => failingHandler 0 (answers f)) with
+  | some i => .handlerFailed i
+  | none => .ok (processDatagram (fun f => (answers f).map Ans.toBool) data)
+
 /-! ### the server address handed to the handler (`TftpServer._run`) -/
 
 structure SockAddr where
